@@ -60,7 +60,14 @@ namespace ikos {
 template <typename Number> void congruence<Number>::normalize(void) {
   // Set to standard form: 0 <= b < a for a != 0
   if (m_a != 0) {
+    if (m_a < 0) {
+      m_a = -m_a;
+    }
     m_b = m_b % m_a;
+    if (m_b < 0) {
+      // operator% is the signed remainder
+      m_b = m_b + m_a;
+    }
   }
 }
 
